@@ -156,6 +156,10 @@ func (d *Downstream) closeWithError(ctx context.Context, cause error) (err error
 
 // ReadDataPointsは、ダウンストリームデータポイントを受信します。
 func (d *Downstream) ReadDataPoints(ctx context.Context) (*DownstreamChunk, error) {
+	if d.isClosed() {
+		// クローズ後に返却したチャンクはAckできないため、キューに残っていても返却しません。
+		return nil, errors.ErrStreamClosed
+	}
 	select {
 	case <-d.ctx.Done():
 		return nil, errors.ErrStreamClosed
@@ -182,6 +186,9 @@ func (d *Downstream) ReadDataPoints(ctx context.Context) (*DownstreamChunk, erro
 
 // ReadMetadataは、ダウンストリームメタデータを受信します。
 func (d *Downstream) ReadMetadata(ctx context.Context) (*DownstreamMetadata, error) {
+	if d.isClosed() {
+		return nil, errors.ErrStreamClosed
+	}
 	select {
 	case <-d.ctx.Done():
 		return nil, errors.ErrStreamClosed
